@@ -124,6 +124,7 @@ type Selector struct {
 	Name string `json:"n"`
 	Op   string `json:"op"`
 	Val  string `json:"v"` // unquoted
+	E    bool   `json:"e"` // observation: the Prometheus matcher of this selector matches "" (the oracle value the planner model asks)
 }
 
 // a series announced on some days (rows of time_series): what the labels request can find
@@ -491,7 +492,13 @@ func runProf(c *Case) {
 			c.Err, c.ErrText = "unquote", err.Error()
 			return
 		}
-		sels = append(sels, Selector{Name: s.Name, Op: s.Op, Val: v})
+		sel := Selector{Name: s.Name, Op: s.Op, Val: v}
+		if mt, ok := map[string]labels.MatchType{"=": labels.MatchEqual, "!=": labels.MatchNotEqual, "=~": labels.MatchRegexp, "!~": labels.MatchNotRegexp}[s.Op]; ok {
+			if pm, merr := labels.NewMatcher(mt, s.Name, v); merr == nil {
+				sel.E = pm.Matches("")
+			}
+		}
+		sels = append(sels, sel)
 	}
 	c.Sels = sels
 	if c.PDB != nil {
